@@ -51,9 +51,9 @@ private theorem isPlainField_spec {g : Nat} {p : WF} (h : isPlainField g p = tru
   · cases h3
 
 /-- the count the reader will use for array `id` is the (scaled) length of the written array -/
-theorem count_ok (as : List Assume) (o : Obj) (pre : List WF) (view : View) (id g a b : Nat)
+theorem count_ok (as : List Assume) (o : Obj) (pre : List WF) (view vfin : View) (id g a b : Nat)
     (xs : List (List Nat))
-    (hassume : ∀ x ∈ as, x.holds o)
+    (hassume : ∀ x ∈ as, x.holds o vfin)
     (hinv : Inv pre o view)
     (hxs : o.get id = .arr xs)
     (hc : countCompat as pre id g a b = true) :
@@ -74,6 +74,8 @@ theorem count_ok (as : List Assume) (o : Obj) (pre : List WF) (view : View) (id 
   · cases x with
     | fieldIsCount _ _ _ _ => simp [isSameLenFor] at hsl
     | lenIs _ _ => simp [isSameLenFor] at hsl
+    | lenIsExpr _ _ => simp [isSameLenFor] at hsl
+    | elemLen _ _ => simp [isSameLenFor] at hsl
     | sameLen arr arr' =>
       simp only [isSameLenFor, Bool.and_eq_true, beq_iff_eq, List.any_eq_true] at hsl
       obtain ⟨harr, p, hp, hpc⟩ := hsl
@@ -82,13 +84,92 @@ theorem count_ok (as : List Assume) (o : Obj) (pre : List WF) (view : View) (id 
       have h1 := hassume _ hx xs xs' hxs hx1
       rw [hx2, h1]
 
+theorem numAt_congr (v1 v2 : View) (g : Nat) (h : List.lookup g v1 = List.lookup g v2) :
+    numAt v1 g = numAt v2 g := by
+  simp only [numAt, h]
+
+theorem NExpr.eval_congr (v1 v2 : View) : ∀ (e : NExpr), (∀ g ∈ e.refs, numAt v1 g = numAt v2 g) →
+    e.eval v1 = e.eval v2
+  | .lit _, _ => rfl
+  | .field g, h => by simpa [NExpr.eval] using h g (by simp [NExpr.refs])
+  | .add a b, h => by
+    simp only [NExpr.eval, NExpr.eval_congr v1 v2 a (fun g hg => h g (by simp [NExpr.refs, hg])),
+      NExpr.eval_congr v1 v2 b (fun g hg => h g (by simp [NExpr.refs, hg]))]
+  | .sub a b, h => by
+    simp only [NExpr.eval, NExpr.eval_congr v1 v2 a (fun g hg => h g (by simp [NExpr.refs, hg])),
+      NExpr.eval_congr v1 v2 b (fun g hg => h g (by simp [NExpr.refs, hg]))]
+  | .mul a b, h => by
+    simp only [NExpr.eval, NExpr.eval_congr v1 v2 a (fun g hg => h g (by simp [NExpr.refs, hg])),
+      NExpr.eval_congr v1 v2 b (fun g hg => h g (by simp [NExpr.refs, hg]))]
+  | .div a k, h => by
+    simp only [NExpr.eval, NExpr.eval_congr v1 v2 a (fun g hg => h g (by simp [NExpr.refs, hg]))]
+  | .divCeil a k, h => by
+    simp only [NExpr.eval, NExpr.eval_congr v1 v2 a (fun g hg => h g (by simp [NExpr.refs, hg]))]
+  | .popcnt k a, h => by
+    simp only [NExpr.eval, NExpr.eval_congr v1 v2 a (fun g hg => h g (by simp [NExpr.refs, hg]))]
+  | .app f a b c, h => by
+    simp only [NExpr.eval, NExpr.eval_congr v1 v2 a (fun g hg => h g (by simp [NExpr.refs, hg])),
+      NExpr.eval_congr v1 v2 b (fun g hg => h g (by simp [NExpr.refs, hg])),
+      NExpr.eval_congr v1 v2 c (fun g hg => h g (by simp [NExpr.refs, hg]))]
+
+theorem evalSegs_congr (v1 v2 : View) : ∀ (segs : Segs), (∀ g ∈ segsRefs segs, numAt v1 g = numAt v2 g) →
+    evalSegs v1 segs = evalSegs v2 segs
+  | [], _ => rfl
+  | (n, ws) :: rest, h => by
+    simp only [evalSegs, NExpr.eval_congr v1 v2 n (fun g hg => h g (by simp [segsRefs, hg])),
+      evalSegs_congr v1 v2 rest (fun g hg => h g (by simp [segsRefs, hg]))]
+
+/-- what `exprFresh` checks -/
+theorem exprFresh_spec (later : List WF) (id : Nat) (refs : List Nat) (h : exprFresh later id refs = true) :
+    ∀ g ∈ refs, g ≠ id ∧ ∀ p ∈ later, p.id ≠ g := by
+  intro g hg
+  have := List.all_eq_true.mp h g hg
+  simp only [Bool.and_eq_true, bne_iff_ne, ne_eq, Bool.not_eq_true', List.any_eq_false, beq_iff_eq] at this
+  exact ⟨this.1, fun p hp => this.2 p hp⟩
+
+/-- the element count the reader computes is the number of written elements -/
+theorem cnt_ok (as : List Assume) (o : Obj) (pre later : List WF) (view vfin : View) (id : Nat)
+    (fixed : Option Nat) (cnt : RCount) (bs : Bytes) (elem : List Nat) (xs : List (List Nat))
+    (hassume : ∀ x ∈ as, x.holds o vfin)
+    (hfin : ∀ g, g ≠ id → (∀ p ∈ later, p.id ≠ g) → numAt vfin g = numAt view g)
+    (hinv : Inv pre o view)
+    (hxs : o.get id = .arr xs)
+    (hfix : fixedOk fixed xs.length = true)
+    (hc : cntCompat as pre later id fixed cnt = true) :
+    evalCount view bs elem cnt = xs.length := by
+  cases cnt with
+  | lit n =>
+    simp only [cntCompat, Bool.or_eq_true, beq_iff_eq, List.contains_iff_mem] at hc
+    rcases hc with hc | hc
+    · subst hc
+      simp only [fixedOk, beq_iff_eq] at hfix
+      simp [evalCount, hfix]
+    · have := hassume _ hc xs hxs
+      simp [evalCount, this]
+  | affine g a bq =>
+    simp only [cntCompat, Bool.and_eq_true, decide_eq_true_eq] at hc
+    obtain ⟨ha, hcc⟩ := hc
+    have hx2 := count_ok as o pre view vfin id g a bq xs hassume hinv hxs hcc
+    simp only [evalCount, hx2]
+    rw [Nat.add_sub_cancel, Nat.mul_div_cancel_left _ ha]
+  | rest => simp [cntCompat] at hc
+  | expr e =>
+    simp only [cntCompat, Bool.and_eq_true, List.contains_iff_mem] at hc
+    obtain ⟨hmem, hfresh⟩ := hc
+    have h1 : xs.length = e.eval vfin := hassume _ hmem xs hxs
+    have hsp := exprFresh_spec later id e.refs hfresh
+    have h2 : e.eval vfin = e.eval view :=
+      NExpr.eval_congr vfin view e (fun g hg => hfin g (hsp g hg).1 (hsp g hg).2)
+    simp only [evalCount, h1, h2]
+
 /-- one statement: what the writer put there is what the reader's getter returns, and the reader consumed exactly
 the bytes the statement produced -/
-theorem parseField_emitField (ext : Ext) (as : List Assume) (o : Obj) (pre : List WF) (view : View) (w : WF)
-    (r : RF) (last : Bool) (b rest : Bytes) (v : Val)
-    (hassume : ∀ x ∈ as, x.holds o)
+theorem parseField_emitField (ext : Ext) (as : List Assume) (o : Obj) (pre later : List WF) (view vfin : View)
+    (w : WF) (r : RF) (b rest : Bytes) (v : Val)
+    (hassume : ∀ x ∈ as, x.holds o vfin)
+    (hfin : ∀ g, g ≠ w.id → (∀ p ∈ later, p.id ≠ g) → numAt vfin g = numAt view g)
     (hc : w.cond = r.cond)
-    (hi : itemCompat as pre last w.id w.item r.item = true)
+    (hi : itemCompat as pre later w.id w.item r.item = true)
     (hinv : Inv pre o view)
     (he : emitField ext o view w = some (b, v))
     (hrest : isRestItem r.item = true → rest = []) :
@@ -104,6 +185,8 @@ theorem parseField_emitField (ext : Ext) (as : List Assume) (o : Obj) (pre : Lis
       rw [hw] at he hi
       cases hr : r.item with
       | array cnt elem => rw [hr] at hi; simp [itemCompat] at hi
+      | arrayV cnt segs => rw [hr] at hi; simp [itemCompat] at hi
+      | arrayL cnt hw' item => rw [hr] at hi; simp [itemCompat] at hi
       | scalar sz' =>
         rw [hr] at hi
         simp only [itemCompat, beq_iff_eq] at hi
@@ -124,6 +207,8 @@ theorem parseField_emitField (ext : Ext) (as : List Assume) (o : Obj) (pre : Lis
       rw [hw] at he hi
       cases hr : r.item with
       | scalar sz' => rw [hr] at hi; simp [itemCompat] at hi
+      | arrayV cnt segs => rw [hr] at hi; simp [itemCompat] at hi
+      | arrayL cnt hw' item => rw [hr] at hi; simp [itemCompat] at hi
       | array cnt elem' =>
         rw [hr] at hi hrest
         simp only [itemCompat, Bool.and_eq_true, beq_iff_eq] at hi
@@ -140,30 +225,90 @@ theorem parseField_emitField (ext : Ext) (as : List Assume) (o : Obj) (pre : Lis
               injection he with he1 he2
               subst he1 he2
               have hcount : evalCount view (bb ++ rest) elem cnt = xs.length := by
-                cases cnt with
-                | lit n =>
-                  simp only [Bool.or_eq_true, beq_iff_eq, List.contains_iff_mem] at hcnt
-                  rcases hcnt with hcnt | hcnt
-                  · subst hcnt
-                    simp only [fixedOk, beq_iff_eq] at hfix
-                    simp [evalCount, hfix]
-                  · have := hassume _ hcnt xs hxs
-                    simp [evalCount, this]
-                | affine g a bq =>
-                  simp only [Bool.and_eq_true, decide_eq_true_eq] at hcnt
-                  obtain ⟨ha, hcc⟩ := hcnt
-                  have hx2 := count_ok as o pre view w.id g a bq xs hassume hinv hxs hcc
-                  simp only [evalCount, hx2]
-                  rw [Nat.add_sub_cancel, Nat.mul_div_cancel_left _ ha]
-                | rest =>
+                by_cases hcr : cnt = .rest
+                · subst hcr
                   simp only [Bool.and_eq_true, decide_eq_true_eq] at hcnt
                   have hr0 : rest = [] := hrest (by simp [isRestItem])
                   subst hr0
                   have hlen := emitRecs_length elem xs bb hbb
                   simp only [evalCount, List.append_nil, hlen]
                   exact Nat.mul_div_cancel _ hcnt.2
+                · have hcc : cntCompat as pre later w.id fixed cnt = true := by
+                    cases cnt with
+                    | rest => exact absurd rfl hcr
+                    | lit _ => exact hcnt
+                    | affine _ _ _ => exact hcnt
+                    | expr _ => exact hcnt
+                  exact cnt_ok as o pre later view vfin w.id fixed cnt _ elem xs hassume hfin hinv hxs hfix hcc
               rw [hcount, parseRecs_emitRecs elem xs bb rest hbb]
             · cases he
+          · cases he
+        · cases he
+    | arrayV wpre tail fixed =>
+      rw [hw] at he hi
+      cases hr : r.item with
+      | scalar sz' => rw [hr] at hi; simp [itemCompat] at hi
+      | array cnt elem => rw [hr] at hi; simp [itemCompat] at hi
+      | arrayL cnt hw' item => rw [hr] at hi; simp [itemCompat] at hi
+      | arrayV cnt segs =>
+        rw [hr] at hi
+        simp only [itemCompat, Bool.and_eq_true, List.contains_iff_mem] at hi
+        obtain ⟨⟨⟨hsc, hmem⟩, hfresh⟩, hcnt⟩ := hi
+        simp only at he ⊢
+        split at he
+        · rename_i xs hxs
+          split at he
+          · rename_i hfix
+            split at he
+            · rename_i bb hbb
+              injection he with he
+              injection he with he1 he2
+              subst he1 he2
+              have hsp := exprFresh_spec later w.id (segsRefs segs) hfresh
+              have hsegs : evalSegs vfin segs = evalSegs view segs :=
+                evalSegs_congr vfin view segs (fun g hg => hfin g (hsp g hg).1 (hsp g hg).2)
+              have hel : ∀ x ∈ xs, x.length = (evalSegs view segs).length := by
+                intro x hx
+                have := hassume _ hmem xs hxs x hx
+                rw [hsegs] at this
+                exact this
+              obtain ⟨k, hk⟩ := segsCompat_sound tail view segs wpre hsc
+              have hbb' : emitRecs (evalSegs view segs) xs = some bb := by
+                rw [← emitRecsV_eq wpre tail (evalSegs view segs) xs ?_]
+                · exact hbb
+                · intro x hx
+                  have hxl := hel x hx
+                  refine ⟨?_, wWidths_of_eq wpre tail k x.length _ hk hxl⟩
+                  rw [hxl, hk]
+                  simp
+              have hcount := cnt_ok as o pre later view vfin w.id fixed cnt (bb ++ rest) (evalSegs view segs) xs
+                hassume hfin hinv hxs hfix hcnt
+              rw [hcount, parseRecs_emitRecs _ xs bb rest hbb']
+            · cases he
+          · cases he
+        · cases he
+    | arrayL hw' item =>
+      rw [hw] at he hi
+      cases hr : r.item with
+      | scalar sz' => rw [hr] at hi; simp [itemCompat] at hi
+      | array cnt elem => rw [hr] at hi; simp [itemCompat] at hi
+      | arrayV cnt segs => rw [hr] at hi; simp [itemCompat] at hi
+      | arrayL cnt hw'' item' =>
+        rw [hr] at hi
+        simp only [itemCompat, Bool.and_eq_true, beq_iff_eq] at hi
+        obtain ⟨⟨h1, h2⟩, hcnt⟩ := hi
+        subst h1 h2
+        simp only at he ⊢
+        split at he
+        · rename_i xs hxs
+          split at he
+          · rename_i bb hbb
+            injection he with he
+            injection he with he1 he2
+            subst he1 he2
+            have hcount := cnt_ok as o pre later view vfin w.id none cnt (bb ++ rest) item xs
+              hassume hfin hinv hxs (by simp [fixedOk]) hcnt
+            rw [hcount, parseRecsL_emitRecsL hw' item xs bb rest hbb]
           · cases he
         · cases he
   · rw [if_neg hcond] at he
@@ -233,22 +378,48 @@ theorem inv_step (ext : Ext) (o : Obj) (pre : List WF) (view : View) (w : WF) (b
     · rw [numAt_cons_ne _ _ _ _ (hne p hpp g hid)]
       exact hinv.2 p hpp g hpf
 
-theorem parse_emit_aux (ext : Ext) (as : List Assume) (o : Obj) (hassume : ∀ x ∈ as, x.holds o) :
+/-- `emit` only adds entries for the statements it runs -/
+theorem emit_lookup_other (ext : Ext) (o : Obj) : ∀ (ws : List WF) (view : View) (bytes : Bytes) (view' : View),
+    emit ext o ws view = some (bytes, view') →
+    ∀ g, (∀ p ∈ ws, p.id ≠ g) → List.lookup g view' = List.lookup g view
+  | [], view, bytes, view', he, g, hg => by
+    simp only [emit] at he
+    injection he with he
+    injection he with _ he2
+    rw [he2]
+  | w :: ws, view, bytes, view', he, g, hg => by
+    simp only [emit] at he
+    split at he
+    · cases he
+    · rename_i b v hf
+      split at he
+      · cases he
+      · rename_i bs view'' hrec
+        injection he with he
+        injection he with _ he2
+        subst he2
+        rw [emit_lookup_other ext o ws _ bs view'' hrec g (fun p hp => hg p (List.mem_cons_of_mem _ hp))]
+        have hne : g ≠ w.id := fun h => hg w (List.mem_cons_self ..) h.symm
+        have : (g == w.id) = false := by simpa using hne
+        simp [List.lookup, this]
+
+theorem parse_emit_aux (ext : Ext) (as : List Assume) (o : Obj) :
     ∀ (ws : List WF) (rs : List RF) (pre : List WF)
     (view : View) (bytes : Bytes) (view' : View) (rest : Bytes),
+    (∀ x ∈ as, x.holds o view') →
     compatAux as pre ws rs = true → Inv pre o view →
     emit ext o ws view = some (bytes, view') →
     (usesRest rs = true → rest = []) →
     parse rs view (bytes ++ rest) = some (view', rest)
-  | [], [], pre, view, bytes, view', rest, hc, hinv, he, hr => by
+  | [], [], pre, view, bytes, view', rest, hassume, hc, hinv, he, hr => by
     simp only [emit] at he
     injection he with he
     injection he with he1 he2
     subst he1 he2
     simp [parse]
-  | [], _ :: _, pre, view, bytes, view', rest, hc, hinv, he, hr => by simp [compatAux] at hc
-  | _ :: _, [], pre, view, bytes, view', rest, hc, hinv, he, hr => by simp [compatAux] at hc
-  | w :: ws, r :: rs, pre, view, bytes, view', rest, hc, hinv, he, hr => by
+  | [], _ :: _, pre, view, bytes, view', rest, hassume, hc, hinv, he, hr => by simp [compatAux] at hc
+  | _ :: _, [], pre, view, bytes, view', rest, hassume, hc, hinv, he, hr => by simp [compatAux] at hc
+  | w :: ws, r :: rs, pre, view, bytes, view', rest, hassume, hc, hinv, he, hr => by
     simp only [compatAux, Bool.and_eq_true, beq_iff_eq, Bool.not_eq_true'] at hc
     obtain ⟨⟨⟨⟨⟨hid, hcond⟩, hfresh⟩, hcok⟩, hitem⟩, htail⟩ := hc
     simp only [emit] at he
@@ -266,7 +437,14 @@ theorem parse_emit_aux (ext : Ext) (as : List Assume) (o : Obj) (hassume : ∀ x
           apply hr
           simp only [usesRest, List.any_cons, Bool.or_eq_true]
           exact Or.inr h
-        have hfield := parseField_emitField ext as o pre view w r ws.isEmpty b (bs ++ rest) v hassume hcond hitem hinv hf
+        have hfin : ∀ g, g ≠ w.id → (∀ p ∈ ws, p.id ≠ g) → numAt view'' g = numAt view g := by
+          intro g hg hl
+          apply numAt_congr
+          rw [emit_lookup_other ext o ws _ bs view'' hrec g hl]
+          have : (g == w.id) = false := by simpa using hg
+          simp [List.lookup, this]
+        have hfield := parseField_emitField ext as o pre ws view view'' w r b (bs ++ rest) v hassume hfin hcond hitem
+          hinv hf
           (by
             intro hri
             have h1 : rest = [] := by
@@ -277,15 +455,21 @@ theorem parse_emit_aux (ext : Ext) (as : List Assume) (o : Obj) (hassume : ∀ x
               cases r.item with
               | scalar _ => simp [isRestItem]
               | array cnt _ => cases cnt <;> simp [isRestItem]
+              | arrayV cnt _ => simp [isRestItem]
+              | arrayL cnt _ _ => simp [isRestItem]
             subst h1
             -- a `.rest` array is compatible only as the last statement
             have hlast : ws = [] := by
               revert hitem hri
               cases hw : w.item with
               | scalar _ _ => cases r.item <;> simp [itemCompat, isRestItem]
+              | arrayV _ _ _ => cases r.item <;> simp [itemCompat, isRestItem]
+              | arrayL _ _ => cases r.item <;> simp [itemCompat, isRestItem]
               | array elem fixed =>
                 cases r.item with
                 | scalar _ => simp [isRestItem]
+                | arrayV _ _ => simp [isRestItem]
+                | arrayL _ _ _ => simp [isRestItem]
                 | array cnt _ =>
                   cases cnt <;> simp [itemCompat, isRestItem]
                   intro _ h _
@@ -296,21 +480,22 @@ theorem parse_emit_aux (ext : Ext) (as : List Assume) (o : Obj) (hassume : ∀ x
             injection hrec with h1 _
             simp [← h1])
         have hinv' := inv_step ext o pre view w b v hfresh hinv hf
-        have ih := parse_emit_aux ext as o hassume ws rs (w :: pre) ((w.id, v) :: view) bs view'' rest htail hinv' hrec
+        have ih := parse_emit_aux ext as o ws rs (w :: pre) ((w.id, v) :: view) bs view'' rest hassume htail hinv' hrec
           hrest_tail
         rw [List.append_assoc]
         simp only [parse, hfield]
         rw [← hid]
         exact ih
 
+/-- the core: from any initial view `args` (the reader's external arguments; `[]` for `FontRead`) -/
 theorem read_write_core (ext : Ext) (as : List Assume) (ws : List WF) (rs : List RF) (o : Obj)
-    (bytes rest : Bytes) (view : View)
+    (args : View) (bytes rest : Bytes) (view : View)
     (hc : compatU as ws rs = true)
-    (hassume : ∀ x ∈ as, x.holds o)
-    (he : emit ext o ws [] = some (bytes, view))
+    (hassume : ∀ x ∈ as, x.holds o view)
+    (he : emit ext o ws args = some (bytes, view))
     (hr : usesRest rs = true → rest = []) :
-    parse rs [] (bytes ++ rest) = some (view, rest) := by
-  apply parse_emit_aux ext as o hassume ws rs [] [] bytes view rest hc _ he hr
+    parse rs args (bytes ++ rest) = some (view, rest) := by
+  apply parse_emit_aux ext as o ws rs [] args bytes view rest hassume hc _ he hr
   constructor
   · intro p hp
     cases hp
@@ -404,6 +589,30 @@ theorem emitField_owned (ext : Ext) (o : Obj) (view : View) (w : WF) (b : Bytes)
           · cases he
         · cases he
       · cases he
+    | arrayV wpre tail fixed =>
+      rw [hw] at he
+      simp only at he
+      split at he
+      · rename_i xs hxs
+        split at he
+        · split at he
+          · injection he with he
+            injection he with _ he2
+            rw [← he2, hxs]
+          · cases he
+        · cases he
+      · cases he
+    | arrayL hw' item =>
+      rw [hw] at he
+      simp only at he
+      split at he
+      · rename_i xs hxs
+        split at he
+        · injection he with he
+          injection he with _ he2
+          rw [← he2, hxs]
+        · cases he
+      · cases he
   · rw [if_neg hcond] at he
     rw [if_neg hcond]
     injection he with he
@@ -468,5 +677,61 @@ theorem emit_view (ext : Ext) (o : Obj) : ∀ (ws : List WF) (pre : List WF) (vi
             rw [hcc]
           · exact ihb w' hw' how
 
+/-! ## format enums -/
+
+theorem enumCompat_mem (hw : Nat) : ∀ (vs : List Variant) (v : Variant), enumCompat hw vs = true → v ∈ vs →
+    startsWithFormat hw v = true ∧ compatU v.as v.w v.r = true
+  | [], v, _, hv => by cases hv
+  | v0 :: vs, v, h, hv => by
+    simp only [enumCompat, Bool.and_eq_true] at h
+    rcases List.mem_cons.mp hv with hv | hv
+    · subst hv
+      exact ⟨h.1.1.1, h.1.1.2⟩
+    · exact enumCompat_mem hw vs v h.2 hv
+
+/-- the reader's `match format` selects the variant whose constant was written -/
+theorem enumCompat_find (hw : Nat) : ∀ (vs : List Variant) (v : Variant), enumCompat hw vs = true → v ∈ vs →
+    vs.find? (fun v' => v'.fmt == v.fmt) = some v
+  | [], v, _, hv => by cases hv
+  | v0 :: vs, v, h, hv => by
+    simp only [enumCompat, Bool.and_eq_true, Bool.not_eq_true', List.any_eq_false, beq_iff_eq] at h
+    rcases List.mem_cons.mp hv with hv | hv
+    · subst hv
+      simp [List.find?]
+    · have hne : (v0.fmt == v.fmt) = false := by
+        have := h.1.2 v hv
+        simp only [beq_eq_false_iff_ne, ne_eq]
+        exact fun h' => this h'.symm
+      simp only [List.find?, hne]
+      exact enumCompat_find hw vs v h.2 hv
+
+/-- a writer that starts with its format constant produces bytes that start with it -/
+theorem emit_startsWithFormat (ext : Ext) (hw : Nat) (v : Variant) (o : Obj) (args : View) (bytes : Bytes)
+    (view : View) (hs : startsWithFormat hw v = true) (he : emit ext o v.w args = some (bytes, view)) :
+    ∃ bs, bytes = be hw v.fmt ++ bs ∧ v.fmt < 256 ^ hw := by
+  unfold startsWithFormat at hs
+  split at hs
+  · rename_i id c sz ws hw'
+    simp only [Bool.and_eq_true, beq_iff_eq] at hs
+    obtain ⟨h1, h2⟩ := hs
+    subst h1 h2
+    rw [hw'] at he
+    simp only [emit, emitField, condHolds, if_true, srcVal] at he
+    split at he
+    · cases he
+    · rename_i b vv hf
+      split at hf
+      · rename_i hlt
+        injection hf with hf
+        injection hf with hf1 _
+        subst hf1
+        split at he
+        · cases he
+        · rename_i bs view'' _
+          injection he with he
+          injection he with he1 _
+          exact ⟨bs, he1.symm, hlt⟩
+      · cases hf
+  · cases hs
 
 end FontVerif.C04
